@@ -820,3 +820,113 @@ Section WRunAll.
     Qed.
   End Family.
 End WRunAll.
+
+(* ---------------------------------------------------------------- run_all *)
+Lemma fam_equiv_tag {T} (teq : T -> T -> bool) (r : nat -> nat) (fld : string)
+      (rr rr' : list (keyfam * list (nat * T))) :
+  fam_equiv teq (ren_fam r rr) rr' ->
+  fam_equiv teq (ren_fam r (map (fun '(fam, v) => (fld, fam, v)) rr)) (map (fun '(fam, v) => (fld, fam, v)) rr').
+Proof.
+  unfold fam_equiv, ren_fam. revert rr'. induction rr as [|[fam v] rr IH]; intros rr' H.
+  - inversion H. constructor.
+  - cbn [map] in H. inversion H as [|x y l l' [Hk Hp] Hrest]; subst. destruct y as [fam' v']. cbn [fst snd] in Hk, Hp.
+    subst fam'. cbn [map fst snd]. constructor; [split; [reflexivity|exact Hp]|]. apply IH. exact Hrest.
+Qed.
+
+Section WRunAll2.
+  Variables r g : nat -> nat.
+  Variables f f' : func.
+  Hypothesis W : fiso_w r g f f'.
+  Hypothesis Hwf : graph_wf f' = true.
+  Variables fu fu' : nat.
+
+  (* two terminating runs of the whole analysis on weakly isomorphic functions: the result of f' is the renamed result
+     of f up to the domains' equalities (same keys in the same order, equal sets, equal fee bounds) *)
+  Theorem wiso_run_all res res' :
+    run_all f fu = Done res -> run_all f' fu' = Done res' -> res_equiv (ren_result r res) res'.
+  Proof.
+    unfold run_all. cbv zeta. rewrite (w_intcs r g f f' W).
+    destruct (run_int f fu true) as [sizes| |] eqn:Rs; destruct (run_int f fu false) as [idx0| |] eqn:Rx;
+      try (intros H; discriminate H).
+    destruct (run_int f' fu' true) as [sizes'| |] eqn:Rs'; destruct (run_int f' fu' false) as [idx0'| |] eqn:Rx';
+      try (intros _ H; discriminate H).
+    pose proof (wiso_run_int r g f f' W Hwf fu fu' true sizes sizes' Rs Rs') as Hs.
+    pose proof (wiso_run_int r g f f' W Hwf fu fu' false idx0 idx0' Rx Rx') as Hx.
+    pose proof (below_size_peq r g f f' W sizes sizes' idx0 idx0' Hs Hx) as Hi.
+    change (map (fun '(b, gi) =>
+                   let gs := match Analysis.lookup _ sizes b with Some l => l | None => [] end in
+                   (b, filter (fun i => Z.ltb i (zmax_default gs)) gi)) idx0)
+      with (map (below_size sizes) idx0).
+    change (map (fun '(b, gi) =>
+                   let gs := match Analysis.lookup _ sizes' b with Some l => l | None => [] end in
+                   (b, filter (fun i => Z.ltb i (zmax_default gs)) gi)) idx0')
+      with (map (below_size sizes') idx0').
+    set (indices := map (below_size sizes) idx0) in *. set (indices' := map (below_size sizes') idx0') in *.
+    match goal with
+    | |- match seq_outcomes ?l ?G with _ => _ end = _ -> match seq_outcomes _ ?G' with _ => _ end = _ -> _ =>
+        destruct (seq_outcomes l G) as [addrs| |] eqn:Q1; try (intros H; discriminate H);
+        destruct (seq_outcomes l G') as [addrs'| |] eqn:Q2; try (intros _ H; discriminate H);
+        pose proof (seq_outcomes_rel
+                      (fun (l0 l0' : list (string * keyfam * list (nat * sset))) =>
+                         fam_equiv sset_seteqb (ren_fam r l0) l0') l G G') as HA
+    end.
+    match goal with |- match ?X with _ => _ end = _ -> _ => destruct X as [fees| |] eqn:Rf; try (intros H; discriminate H) end.
+    match goal with |- _ -> match ?X with _ => _ end = _ -> _ => destruct X as [fees'| |] eqn:Rf'; try (intros _ H; discriminate H) end.
+    match goal with |- match ?X with _ => _ end = _ -> _ => destruct X as [types| |] eqn:Rt; try (intros H; discriminate H) end.
+    match goal with |- _ -> match ?X with _ => _ end = _ -> _ => destruct X as [types'| |] eqn:Rt'; try (intros _ H; discriminate H) end.
+    intros R1 R2. inversion R1; inversion R2. unfold ren_result. cbn [r_sizes r_indices r_types r_addrs r_fees].
+    constructor; cbn [r_sizes r_indices r_types r_addrs r_fees].
+    - exact Hs.
+    - exact Hi.
+    - exact (wiso_run_family r g f f' W Hwf fu fu' (list string) lset_eqb ALL_TRANSACTION_TYPES [] lunion linter
+               PTrue (@incl string) (lset_wlaws ALL_TRANSACTION_TYPES)
+               (fun fam => type_single (fn_intcs f) fam) (fun fam => type_single_P (fn_intcs f) fam)
+               (fun fam => iso_type_single g (fn_intcs f) fam) indices indices' types types' Hi Rt Rt').
+    - unfold fam_equiv, ren_fam. apply Forall2_concat_map.
+      refine (HA _ addrs addrs' Q1 Q2). clear HA Q1 Q2.
+      intros fld b c _.
+      match goal with |- match ?X with _ => _ end = _ -> _ => destruct X as [rr| |] eqn:Ra; try (intros H; discriminate H) end.
+      match goal with |- _ -> match ?X with _ => _ end = _ -> _ => destruct X as [rr'| |] eqn:Ra'; try (intros _ H; discriminate H) end.
+      intros Eb Ec. inversion Eb; inversion Ec. apply fam_equiv_tag.
+      exact (wiso_run_family r g f f' W Hwf fu fu' sset sset_seteqb addr_universal_set addr_null_set addr_union
+               addr_intersection addr_wf addr_leq addr_wlaws
+               (fun fam => addr_single (fn_intcs f) fam fld) (fun fam => addr_single_wf (fn_intcs f) fam fld)
+               (fun fam => iso_addr_single g (fn_intcs f) fam fld) indices indices' rr rr' Hi Ra Ra').
+    - exact (wiso_run_family r g f f' W Hwf fu fu' feeval feeval_eqb fee_universal_set fee_null_set fee_union
+               fee_intersection fee_P fee_rleq fee_wlaws
+               (fun fam => fee_single (fn_intcs f) fam) (fun fam => fee_single_P (fn_intcs f) fam)
+               (fun fam => iso_fee_single g (fn_intcs f) fam) indices indices' fees fees' Hi Rf Rf').
+  Qed.
+
+  (* the contexts of corresponding blocks are ctx_equiv (every block id, every key family) *)
+  Theorem wiso_ctx_equiv res res' n fam :
+    run_all f fu = Done res -> run_all f' fu' = Done res' ->
+    ctx_equiv (ctx_of (ren_result r res) n fam) (ctx_of res' n fam).
+  Proof. intros R1 R2. apply ctx_of_equiv. exact (wiso_run_all res res' R1 R2). Qed.
+
+  (* validated_in_block agrees: the hypothesis of IsoWeak.wiso_run_detector, for every invariant predicate *)
+  Theorem wiso_validated res res' checks ai n :
+    run_all f fu = Done res -> run_all f' fu' = Done res' -> ctx_inv checks ->
+    validated_in_block res' checks ai n = validated_in_block (ren_result r res) checks ai n.
+  Proof.
+    intros R1 R2 Hc. symmetry. apply validated_in_block_equiv; [exact (wiso_run_all res res' R1 R2)|exact Hc].
+  Qed.
+
+  (* detectors: exactly the renamed paths, same order, every search fuel, exceptions included *)
+  Theorem wiso_detector_inv res res' fuel name checks :
+    run_all f fu = Done res -> run_all f' fu' = Done res' -> ctx_inv checks ->
+    run_detector f' res' fuel name checks = omap (ren_paths r) (run_detector f res fuel name checks).
+  Proof.
+    intros R1 R2 Hc. apply (wiso_run_detector r g f f' res res' fuel name checks W).
+    intros n. exact (wiso_validated res res' checks None n R1 R2 Hc).
+  Qed.
+
+  Theorem wiso_detectors res res' fuel name checks :
+    run_all f fu = Done res -> run_all f' fu' = Done res' -> In (name, checks) detectors ->
+    run_detector f' res' fuel name checks = omap (ren_paths r) (run_detector f res fuel name checks).
+  Proof.
+    intros R1 R2 Hin. exact (wiso_detector_inv res res' fuel name checks R1 R2 (detectors_ctx_inv name checks Hin)).
+  Qed.
+End WRunAll2.
+
+Print Assumptions wiso_detectors.
